@@ -269,7 +269,8 @@ func errClass(err error) string {
 		return "tx-hash"
 	case strings.Contains(s, "can not verify hash in block header"):
 		return "block-hash"
-	case strings.Contains(s, "unsupported block version"), strings.Contains(s, "cannot parse starknet protocol version"):
+	case strings.Contains(s, "unsupported block version"), strings.Contains(s, "cannot parse starknet protocol version"),
+		strings.Contains(s, "starknet protocol version is"): // (proposed fix: the length limit)
 		return "version"
 	case strings.Contains(s, "expected block #"):
 		return "number"
@@ -709,7 +710,7 @@ func buildChain(f lib.Flags, task chainTask) (*lib.ChainGen, error) {
 		spec.Version = opt.Versions[vi]
 		if task.Chain >= 100 {
 			// the post-0.7 Pedersen format (Sepolia: First07Block = 0), transaction hashes verified (>= 0.11)
-			spec.Version = []string{"0.12.3", "0.13.0", "0.13.1"}[i*3/n]
+			spec.Version = []string{"0.11.1", "0.12.3", "0.13.1"}[i*3/n]
 		}
 		if spec.Version == "0.13.2" && i%3 == 1 {
 			spec.Version = "0.13.3" // same hash format as 0.13.2
